@@ -292,7 +292,7 @@ func checkC13(c *Ctx) {
 	checkExitStatus(c, "C13.R6.exit-status", pk, cmds)
 
 	// ---- R7 presence: locations, precedence
-	checkLocations(c, pk)
+	checkLocations(c, "C13.R7.presence", pk)
 
 	// ---- R8 ref resolution before field reads
 	checkRefResolution(c, r)
@@ -573,8 +573,7 @@ func checkAdapters(c *Ctx, pk *packages.Package) {
 
 // checkLocations: analyseRequestParams iterates all five `in` values; getParams applies
 // operation-level parameters after path-level ones.
-func checkLocations(c *Ctx, pk *packages.Package) {
-	rule := "C13.R7.presence"
+func checkLocations(c *Ctx, rule string, pk *packages.Package) {
 	c.Rule(rule, "analyseRequestParams ranges over all five parameter locations; getParams lets operation-level parameters override path-level ones; deleted endpoints / responses / properties are looked up by missing-in-2 triggers", 3)
 	info := pk.TypesInfo
 	want := []string{"body", "formData", "header", "path", "query"}
